@@ -97,12 +97,19 @@ fn lonlat_vec(ll: LonLat) -> [f64; 3] {
 
 pub fn search_c18(rng: &mut Rng, thorough: bool) -> SearchResult {
     let mut r = SearchResult::default();
-    r.rule = "nearest-face selection on uniform points and points within 1e-2..1e-9 of the seams against the true nearest centre by dot product (ties within 1e-12 skipped); the 12 base-cell centres from the public API: antipodal pairs / 63.435 degrees, 5 neighbours each, face 0 at the north pole, face 1 at longitude -93; lookups at resolution 0 agree with the nearest face; quintant<->segment relabelling on all 12 x 5. non-trivial = distinct points / pairs".into();
+    r.rule = "nearest-face selection on uniform points, points within 1e-2..1e-9 of the seams and points 1e-9..0.05 rad from the 20 dodecahedron vertices against the true nearest centre by dot product (ties within 1e-12 skipped); the 12 base-cell centres from the public API: antipodal pairs / 63.435 degrees, 5 neighbours each, face 0 at the north pole, face 1 at longitude -93; lookups at resolution 0 agree with the nearest face; quintant<->segment relabelling on all 12 x 5. non-trivial = distinct points / pairs".into();
     let origins = get_origins();
     let axes: Vec<[f64; 3]> = origins.iter().map(|o| cart(o.axis.theta().get(), o.axis.phi().get())).collect();
     let base = a5::get_res0_cells().unwrap();
+    let verts = crate::geocorr::dodecahedron_vertices();
+    assert_eq!(verts.len(), 20);
     for k in 0..(if thorough { 400_000 } else { 60_000 }) {
-        let (t, p) = if k % 2 == 0 { sphere_point(rng) } else { let e = 10f64.powi(-(rng.range_i(2, 9) as i32)); seam_point(rng, e) };
+        let (t, p) = if k % 8 == 7 {
+            // next to one of the 20 dodecahedron vertices (the points of a face farthest from its centre), 1e-9..0.05 rad away
+            r.count("near_a_dodecahedron_vertex");
+            let (vi, e) = (rng.below(20) as usize, 10f64.powf(-(1.3 + 7.7 * rng.unit())));
+            crate::geocorr::point_near(rng, verts[vi], e)
+        } else if k % 2 == 0 { sphere_point(rng) } else { let e = 10f64.powi(-(rng.range_i(2, 9) as i32)); seam_point(rng, e) };
         let v = cart(t, p);
         let got = find_nearest_origin(Spherical::new(Radians::new_unchecked(t), Radians::new_unchecked(p))).id as usize;
         let mut best = 0usize;
@@ -199,7 +206,7 @@ fn q_closed(x: f64) -> f64 {
 
 pub fn search_c19(rng: &mut Rng, thorough: bool) -> SearchResult {
     let mut r = SearchResult::default();
-    r.rule = "latitudes on a dense grid over [-pi/2, pi/2] + random + endpoints: both round trips <= 1e-12 rad, oddness, fixed points, strict monotonicity between neighbouring samples, closed-form WGS84 authalic latitude within 1e-11 for |lat| <= 89 deg (independent f64 implementation of asin(q/q_p)); lon/lat -> sphere -> lon/lat (both through the angles and through the unit vector) for lon in [-540, 540] incl. poles, antimeridian and points 1e-6 .. 1e-12 degrees from the coordinate planes of the internal frame: same physical point within 1e-12 rad. non-trivial = distinct sample points".into();
+    r.rule = "latitudes on a dense grid over [-pi/2, pi/2] + random + endpoints: both round trips <= 1e-12 rad, oddness, fixed points, strict monotonicity between neighbouring samples, closed-form WGS84 authalic latitude within 1e-11 for |lat| <= 89 deg (independent f64 implementation of asin(q/q_p)), also applied to the inverse's result; the same conversions repeated in other orders with other evaluations in between give bit-identical results; lon/lat -> sphere -> lon/lat (both through the angles and through the unit vector) for lon in [-540, 540] incl. poles, antimeridian and points 1e-6 .. 1e-12 degrees from the coordinate planes of the internal frame: same physical point within 1e-12 rad. non-trivial = distinct sample points".into();
     let a = AuthalicProjection;
     let h = std::f64::consts::FRAC_PI_2;
     let n = if thorough { 2_000_000 } else { 200_000 };
@@ -222,6 +229,28 @@ pub fn search_c19(rng: &mut Rng, thorough: bool) -> SearchResult {
             }
         }
         prev = Some((x, f, i));
+        // the inverse against the closed form as well: the authalic latitude of inverse(x) is x (1e-11 for the closed form
+        // plus the 1e-12 of the round trip), whatever was evaluated just before
+        if i.abs() <= 89f64.to_radians() {
+            let back = (q_closed(i) / qp).asin();
+            if (back - x).abs() > 1.2e-11 {
+                r.viol("authalic", format!("inverse({:e}) = {:e}, whose closed-form authalic latitude is {:e} (directly after forward of the same value)", x, i, back));
+            }
+        }
+        // the same conversions in other orders and with another evaluation in between
+        if k % 16 == 3 {
+            let i2 = a.inverse(Radians::new_unchecked(x)).get();
+            let f2 = a.forward(Radians::new_unchecked(x)).get();
+            let _ = a.forward(Radians::new_unchecked(0.4321));
+            let i3 = a.inverse(Radians::new_unchecked(x)).get();
+            let _ = a.inverse(Radians::new_unchecked(-0.1234));
+            let f3 = a.forward(Radians::new_unchecked(x)).get();
+            let g = a.forward(Radians::new_unchecked(f)).get();
+            let rt3 = a.inverse(Radians::new_unchecked(f)).get();
+            if i2.to_bits() != i.to_bits() || i3.to_bits() != i.to_bits() || f2.to_bits() != f.to_bits() || f3.to_bits() != f.to_bits() || (rt3 - x).abs() > 1e-12 {
+                r.viol("authalic", format!("conversions of {:e} depend on the order of evaluation: forward {:e} / {:e} / {:e}, inverse {:e} / {:e} / {:e}; inverse(forward(x)) after forward(forward(x)) = {:e}: {:e}", x, f, f2, f3, i, i2, i3, g, rt3));
+            }
+        }
         if x.abs() <= 89f64.to_radians() {
             let want = (q_closed(x) / qp).asin();
             if (f - want).abs() > 1e-11 {
@@ -428,7 +457,7 @@ pub fn search_c15(rng: &mut Rng, thorough: bool) -> SearchResult {
 
 pub fn search_c16(rng: &mut Rng, thorough: bool) -> SearchResult {
     let mut r = SearchResult::default();
-    r.rule = "small planar probe triangles (size min(1e-5, rho/500, a quarter of the distance to the nearest seam / edge), random orientation, edges subdivided 8x) placed in each of the 10 sectors of all 12 faces: at 1e-6..0.12 from the centre, 1e-7..1e-2 rad from the internal seams (hence also next to vertices and edge midpoints), 10^-8..10^-2.5 of the way from the face edge on either side, and in the reflected margin, never straddling a seam or the edge: (area of the unprojected triangle on the sphere) / (planar area) equals 4*pi / (12 * face area) within 1e-4 relative. non-trivial = distinct probe triangles".into();
+    r.rule = "small planar probe triangles (size min(1e-5, rho/500, a quarter of the distance to the nearest seam / edge), random orientation, edges subdivided 8x) placed in each of the 10 sectors of all 12 faces: at 1e-6..0.12 from the centre, 1e-7..1e-2 rad from the internal seams (hence also next to vertices and edge midpoints), 10^-8..10^-2.5 of the way from the face edge on either side, in the reflected margin, and in the margin beside a face corner (beyond the edge, 10^-4..10^-1.3 from the corner, past the side of the reflected triangle but below the corner, where the sector's triangle is continued with a negative weight), never straddling a seam or the edge: (area of the unprojected triangle on the sphere) / (planar area) equals 4*pi / (12 * face area) within 1e-4 relative. non-trivial = distinct probe triangles".into();
     let d = DodecahedronProjection::get_thread_local();
     let fv = a5::core::tiling::get_face_vertices();
     let face_area = (fv.get_area() / 2.0).abs();
@@ -464,7 +493,39 @@ pub fn search_c16(rng: &mut Rng, thorough: bool) -> SearchResult {
             6 => x_edge * (1.0 + edge_offset),               // ... and from the reflected margin
             _ => x_edge * rng.unit() * 0.97 + 0.01,
         };
+        // the margin next to a face corner K: beyond the edge, past the side K-A' of the reflected triangle but still in
+        // this sector and below the corner (direction from K between -36 and 0 degrees: part of the neighbouring face
+        // unfolded across the edge, which the azimuth sector hands to this triangle with a negative barycentric weight);
+        // cells sitting on a dodecahedron vertex cover it.  Above the corner (barycentric weight of K beyond 1) the
+        // inverse returns the vertex itself and forward never lands there: no sphere region corresponds to it
+        let corner_wedge = rng.chance(1, 10);
+        let (gamma, rho, seam_offset) = if corner_wedge {
+            let t = 10f64.powf(-(1.3 + 2.7 * rng.unit()));
+            let phi = (-35.0 + 34.5 * rng.unit()).to_radians();
+            let sgn = if rng.chance(1, 2) { 1.0 } else { -1.0 };
+            let (kx, ky) = (edge, edge * pi5.tan());
+            let (x, y) = (kx + t * phi.cos(), ky + t * phi.sin());
+            let mid = (2.0 * (sector / 2.0).floor()) * pi5; // azimuth of an edge midpoint
+            let g = mid + sgn * y.atan2(x);
+            ((g + std::f64::consts::TAU) % std::f64::consts::TAU, (x * x + y * y).sqrt(), None)
+        } else {
+            (gamma, rho, seam_offset)
+        };
+        let beta = if corner_wedge {
+            let seg = gamma / (2.0 * pi5);
+            (seg - seg.round()) * (2.0 * pi5)
+        } else {
+            beta
+        };
+        let x_edge = edge / beta.cos();
         let mut clear = rho;
+        if corner_wedge {
+            // distance to the corner's two lines that bound the wedge (side K-A' and the sector ray) and to the edge
+            let (x, y) = (rho * beta.cos(), rho * beta.sin().abs());
+            let to_side = ((x - edge) + y / pi5.tan() - edge) * pi5.sin();
+            let to_ray = (x * pi5.tan() - y) * pi5.cos();
+            clear = clear.min(to_side.abs()).min(to_ray.abs()).min((edge * pi5.tan() - y).abs());
+        }
         if let Some(off) = seam_offset {
             clear = clear.min(rho * off);
         }
@@ -480,7 +541,7 @@ pub fn search_c16(rng: &mut Rng, thorough: bool) -> SearchResult {
         }
         // beyond the edge the map is defined on the reflected triangle (edge midpoint M, vertex V, reflected centre
         // A' = 2M) only; past the line V-A' (beyond the vertex) no cell reaches and the inverse snaps to V: stay inside
-        if rho > x_edge {
+        if rho > x_edge && !corner_wedge {
             let (x, y) = (rho * beta.cos(), rho * beta.sin().abs());
             if !((x - edge) + y / pi5.tan() <= edge - 8.0 * h) {
                 continue;
@@ -532,7 +593,7 @@ pub fn search_c16(rng: &mut Rng, thorough: bool) -> SearchResult {
         let ratio = sph / pl;
         r.evaluations += 1;
         r.nontrivial += 1;
-        r.count(if s0.0 { "reflected_margin" } else { "inside_face" });
+        r.count(if corner_wedge { "margin_beside_a_face_corner" } else if s0.0 { "reflected_margin" } else { "inside_face" });
         let rel = (ratio / k_want - 1.0).abs();
         worst = worst.max(rel);
         if !(rel <= 1e-4) {
